@@ -122,13 +122,25 @@ def main():
     os.makedirs(out, exist_ok=True)
     import importlib, common
     mod = importlib.import_module(prop.lower())
-    anchors = [a for a in mod.CHECK.anchors if len(a) == 2 and isinstance(a[1], str)]
+    chk = mod.CHECK()
+    anchors = getattr(chk, "anchors", None)
+    if not anchors or not isinstance(anchors, (list, tuple)) or any(len(a) == 3 and isinstance(a[1], int) for a in anchors):
+        # anchors computed at set-up time (name-resolved on the current source), or stale literal line numbers
+        import contextlib, io
+        with contextlib.redirect_stdout(io.StringIO()):
+            try: chk.setup()
+            except Exception as e: print("setup:", e, file=sys.stderr)
+        anchors = chk.anchors
     rng = random.Random(seed * 7919 + int(prop[1:]))
     # enumerate sites per anchor
     pool = []
-    for rel, qual in anchors:
-        path = os.path.join("/repo", rel)
-        r = common.resolve_qualname(path, qual)
+    for a in anchors:
+        rel = a[0]; path = os.path.join("/repo", rel)
+        if not os.path.exists(path): continue
+        if len(a) == 2 and isinstance(a[1], str):
+            r = common.resolve_qualname(path, a[1]); qual = a[1]
+        else:
+            r = (a[1] or 1, a[2] or 10 ** 9); qual = "%s:%s-%s" % (os.path.basename(rel), a[1], a[2])
         if r is None: continue
         src = open(path).read()
         m = mutate_source(src, r[0], r[1], 0)
